@@ -26,15 +26,16 @@ type DiskFault struct {
 // C13Case: producers write patch artefacts, storage and transport damage
 // them, a consumer (the last process) applies or translates one.
 type C13Case struct {
-	Sector    int         `json:"sector"`
-	FileChunk int         `json:"file_chunk,omitempty"`
-	Files     []File      `json:"files"`
-	Procs     []ProcSpec  `json:"procs"`
-	Disk      []DiskFault `json:"disk_faults,omitempty"`
-	Artefact  string      `json:"artefact"` // file the consumer reads as a patch
-	Target    string      `json:"target"`   // document the consumer applies it to
-	Skew      []string    `json:"skew,omitempty"`
-	Env       [][2]string `json:"env,omitempty"`
+	Sector    int               `json:"sector"`
+	FileChunk int               `json:"file_chunk,omitempty"`
+	Files     []File            `json:"files"`
+	Procs     []ProcSpec        `json:"procs"`
+	Disk      []DiskFault       `json:"disk_faults,omitempty"`
+	Artefact  string            `json:"artefact"` // file the consumer reads as a patch
+	Target    string            `json:"target"`   // document the consumer applies it to
+	Skew      []string          `json:"skew,omitempty"`
+	Env       [][2]string       `json:"env,omitempty"`
+	Clock     simos.ClockPolicy `json:"clock,omitempty"`
 }
 
 func applyDiskFault(fs, before *simos.FS, f DiskFault, sector int) bool {
@@ -318,7 +319,7 @@ func checkC13(c C13Case) (*Violation, []string, *caseInfo) {
 			// must report it with status 2
 			want = cliModel(p.Bin, p.Arg0, p.Argv, fs, stdinBytes(fs, p, prev))
 		}
-		res := runProc(fs, p, IOCfg{c.Sector, c.FileChunk, false, c.Env}, prev)
+		res := runProc(fs, p, IOCfg{c.Sector, c.FileChunk, false, c.Env, c.Clock}, prev)
 		log = append(log, eventLog(i, res)...)
 		prev = res.Stdout
 		info.Steps += len(res.Steps)
@@ -438,7 +439,7 @@ func genCase13(c *Chooser) C13Case {
 	np := len(cs.Procs)
 	// faults inside the producer: learn its steps from a fault-free dry run
 	if c.Chance(3, 10) {
-		dry := runProc(fsFromFiles(cs.Files, nil), producer, IOCfg{cs.Sector, cs.FileChunk, false, nil}, nil)
+		dry := runProc(fsFromFiles(cs.Files, nil), producer, IOCfg{cs.Sector, cs.FileChunk, false, nil, cs.Clock}, nil)
 		var cand []simos.Fault
 		for _, st := range dry.Steps {
 			for _, kind := range simos.Applicable(st.Kind) {
@@ -638,6 +639,14 @@ func genCase13(c *Chooser) C13Case {
 	if c.Chance(1, 5) {
 		cs.Env = genEnv(c)
 	}
+	switch c.Int(6) {
+	case 0:
+		// a loaded machine: time jumps between clock readings
+		cs.Clock = simos.ClockPolicy{Mode: "slow", Seed: c.U64()}
+	case 1:
+		// every deadline is already due when it is set
+		cs.Clock = simos.ClockPolicy{Mode: "expired"}
+	}
 	sort.Strings(cs.Skew)
 	return cs
 }
@@ -682,6 +691,11 @@ func shrink13(raw json.RawMessage) []json.RawMessage {
 		d.Skew = nil
 		return d
 	}
+	if c.Clock.Mode != "" {
+		d := cp()
+		d.Clock = simos.ClockPolicy{}
+		add(d)
+	}
 	// freeze: replace producers by the artefact bytes they (and the faults) left
 	// behind, so that only the consumer remains
 	if len(c.Procs) > 1 {
@@ -689,7 +703,7 @@ func shrink13(raw json.RawMessage) []json.RawMessage {
 		var prev []byte
 		for i, p := range c.Procs[:len(c.Procs)-1] {
 			before := fs.Clone()
-			res := runProc(fs, p, IOCfg{c.Sector, c.FileChunk, false, c.Env}, prev)
+			res := runProc(fs, p, IOCfg{c.Sector, c.FileChunk, false, c.Env, c.Clock}, prev)
 			prev = res.Stdout
 			for _, df := range c.Disk {
 				if df.After == i {
